@@ -395,12 +395,30 @@ impl Check for C11 {
             "xs := [[1], [0]]\nxs[xs[1][0]][0] = 5\nprint(xs)\n",
             "s := \"abc\"\nxs := [0, 1, 2]\nxs[xs[1]:] = s[xs[1]:]\nprint(xs)\n",
             "o := {\"l\": [1, 0]}\no.l[o.l[1]] = 7\nprint(o.l)\no.l[o.l[1]:] = [8]\nprint(o.l)\n",
+            "n := 0\nfn next() {\nn += 1\nreturn n\n}\nxs := [10, 20, 30, 40]\nxs[next()] += 5\nprint(xs)\nprint(n)\nxs[next()] = xs[next()]\nprint(xs)\nprint(n)\nxs[next():] = [1]\nprint(n)\n",
+            "e := []\nt := [e, e, [0]]\nt[0] += [1, 2]\nprint(t)\nprint(e)\nt[2] += t[2]\nprint(t)\n",
+            "a := [1]\nb := a\nt := [a, 5]\nt[0] += [2]\nt[1] += 1\nprint(t)\nprint(a)\nprint(b)\n",
+            "s := \"aé€b\"\nt := \"é!\"\nprint(s[:s->len()] == s)\nprint((s + t)[s->len()] == t[0])\nprint((s + t)[s->len() + 2] == t[2])\nprint((s + t)->len() == s->len() + t->len())\nprint(s->len())\n",
+            "s := \"日本\"\nn := 0\nfor c in s {\nn += 1\n}\nprint(n == s->len())\nprint(s[s->len() - 1:] == s[5:6])\n",
         ] {
             let r = crate::refm::eval::run(src, 100_000);
             if r.is_ok() {
                 cases.push(defined_case(src.to_string(), String::from_utf8_lossy(&r.stdout).to_string(), "self-reading index or bound"));
             } else {
                 cases.push(error_case(src.to_string(), "self-reading index or bound out of domain"));
+            }
+        }
+        // indices and bounds are evaluated exactly once, before the right-hand side
+        for c in super::evalorder::cases(0) {
+            if c.meta.contains("`xs[") || c.meta.contains("`@1[@2") || c.meta.contains("`r = @1[@2") || c.meta.contains("`[xs[") {
+                let r = crate::refm::eval::run(&c.src, 100_000);
+                if r.is_ok() {
+                    cases.push(defined_case(c.src.clone(), String::from_utf8_lossy(&r.stdout).to_string(), "evaluation of indices and bounds"));
+                } else {
+                    let mut e = error_case(c.src.clone(), "evaluation of indices and bounds");
+                    e.meta = format!("X{}\u{1}{}", String::from_utf8_lossy(&r.stdout), "evaluation of indices and bounds (fails)");
+                    cases.push(e);
+                }
             }
         }
         for c in &cases {
@@ -434,6 +452,11 @@ impl Check for C11 {
             }
             if r.is_ok() && r.stdout != o.stdout {
                 return viol("reference-mismatch", format!("{}: printed {:?}, reference {:?}", what, o.out_str(), String::from_utf8_lossy(&r.stdout)));
+            }
+            Verdict::Pass
+        } else if let Some(exp) = head.strip_prefix('X') {
+            if o.class != Class::Err || o.out_str() != exp {
+                return viol("index-evaluation", format!("{}: must fail after printing {:?}; the run ended {:?} printing {:?}", what, exp, o.class, o.out_str()));
             }
             Verdict::Pass
         } else {
